@@ -95,6 +95,11 @@ func (c *Conversation) verifySMP2(s1 *smp1State, msg smp2Message) error {
 		return newOtrError("Qb is an invalid group element")
 	}
 
+	// Pb and Qb are divided by when the next message is computed
+	if mod(msg.pb, p).Sign() == 0 || mod(msg.qb, p).Sign() == 0 {
+		return newOtrError("Pb or Qb is not invertible")
+	}
+
 	if !verifyZKP(msg.d2, msg.g2b, msg.c2, 3, c.version) {
 		return newOtrError("c2 is not a valid zero knowledge proof")
 	}
